@@ -686,6 +686,12 @@ impl rustc_driver::Callbacks for Cb {
                                 if let Rvalue::Aggregate(kind, ops) = &bx.1 {
                                     if let AggregateKind::Adt(did, _, _, _, _) = &**kind {
                                         let an = def_id_str(tcx, *did);
+                                        if an.ends_with("ops::range::RangeFrom") && ops.len() == 1 {
+                                            let v: Vec<&Operand<'tcx>> = ops.iter().collect();
+                                            if let Some(a) = cint(v[0]) {
+                                                cx.prom_ranges.insert(pi.as_usize(), (a, i128::MAX, false));
+                                            }
+                                        }
                                         if an.ends_with("ops::range::Range") && ops.len() == 2 {
                                             let v: Vec<&Operand<'tcx>> = ops.iter().collect();
                                             if let (Some(a), Some(b)) = (cint(v[0]), cint(v[1])) {
